@@ -53,6 +53,25 @@ class Base:
         progs += [D.render(dg.program(drnd.choice([1, 2, 2, 3])), drnd, rich=drnd.random() < 0.5)[0] for _ in range(n // 2)]
         progs += [">f if a\n", "<f for\n", "a | >f do\n", ">f { a\n", "2>&1 then\n", ">f ! a\n", "x=1 >f if\n", ">f in\n", ">f }\n", ">f esac b\n", "2>f fi >g\n",
                   "case x in (esac) a;; esac\n", "case x in (esac|b) a;;\n(c) d\nesac\n", "case x in (a|esac) a;; esac\n", "case esac in (esac) esac;; esac\n"]
+        # a line continuation inside a word (between any two characters of a generated program that are not blanks): the parts of
+        # the word on both sides must not fuse into another token when printed
+        cont = []
+        crnd = random.Random(seed * 31 + 11)
+        for p_ in progs[len(CORPUS):len(CORPUS) + n]:
+            idx = [i for i in range(1, len(p_)) if p_[i - 1] not in " \t\n" and p_[i] not in " \t\n"]
+            if not idx or crnd.random() < 0.6:
+                continue
+            for _ in range(crnd.choice([1, 1, 2])):
+                i = crnd.choice(idx)
+                p_ = p_[:i] + "\\\n" + p_[i:]
+                idx = [j if j < i else j + 2 for j in idx if j != i]
+                if not idx:
+                    break
+            cont.append(p_)
+        cont += ["i\\\nf a\n", "echo $\\\n{\n", "echo $\\\n$#\n", "a=1 b\\\n=2 >f\n", "a\\\n=1 cmd\n", "echo $\\\nx\n", "echo \"$\\\nx\"\n", "echo $x\\\ny\n",
+                 "cat <<E\n$x\\\ny\nE\n", "f\\\ni\n", "d\\\no\n", "echo $x\\\n_\n", "echo ${x%\\\n%w} ${y#\\\n#} ${z:-\\\na}\n", "echo $1\\\n0 $x\\\n1\n",
+                 "echo ${#?\\\n}\n", "echo ${#-\\\n} ${##\\\n}\n", ">f echo a\\", "x=1 >f b\\"]
+        progs = progs + cont
         pair = ",".join(str(i) for i in oa16())
         cases = []
         for k, p in enumerate(progs):
@@ -81,6 +100,17 @@ class Base:
         return "print/parse round trip of %r under configs %s" % (unhx(f[0]).decode("utf-8", "replace"), f[1])
 
     def classify(self, part, case, impl, model, judge, findings):
+        import re
+        src = unhx(case.split("\t")[0]).decode("utf-8", "replace")
+        fid = None
+        if re.search(r"\$\{#[#?-]\\\n\}", src):
+            fid = "F64"       # ${#?<continuation>} is read as the parameter # with the operator ?, '${#?}' is the length of $?
+        elif src.endswith("\\") and not src.endswith("\\\\"):
+            fid = "F65"       # a lone backslash at the very end of the input
+        if fid:
+            for fd in findings:
+                if fd.get("id") == fid and fd.get("status") == "open":
+                    return fid
         return None
 
     def shrink(self, u, C):
